@@ -280,6 +280,27 @@ func isConcatOfSet(f *ssa.Function) (bool, string) {
 			}
 			continue
 		}
+		if ok, why, isB := isBuilderConcat(f, ret.Results[0], func(l *core.Loop) bool {
+			ri, ok := core.AsRange(l)
+			if !ok || ri.Kind != "chan" {
+				return false
+			}
+			it, ok := ri.X.(*ssa.Call)
+			return ok && it.Common().IsInvoke() && it.Common().Value == ssa.Value(f.Params[0]) && it.Common().Method.Name() == "Iter"
+		}, func(v ssa.Value) bool {
+			ta, ok := v.(*ssa.TypeAssert)
+			if !ok {
+				return false
+			}
+			ex, ok := ta.X.(*ssa.Extract)
+			return ok && ex.Index == 0
+		}); isB {
+			if !ok {
+				return false, why
+			}
+			sawLoop = true
+			continue
+		}
 		phi, ok := ret.Results[0].(*ssa.Phi)
 		if !ok {
 			return false, "result is not an accumulator: " + core.Describe(ret.Results[0])
@@ -330,6 +351,56 @@ func isConcatOfSet(f *ssa.Function) (bool, string) {
 		sawLoop = true
 	}
 	return sawLoop, "no accumulating return"
+}
+
+// isBuilderConcat recognises `var b strings.Builder; for … { b.WriteString(elem) }; return b.String()`:
+// the only writes to b are WriteString(elem) calls, each unconditional in a
+// loop accepted by loopOK with an element accepted by elemOK. isB tells whether
+// v is a Builder.String() result at all.
+func isBuilderConcat(f *ssa.Function, v ssa.Value, loopOK func(*core.Loop) bool, elemOK func(ssa.Value) bool) (ok bool, why string, isB bool) {
+	sc, isCall := v.(*ssa.Call)
+	if !isCall || core.CallName(sc) != "(*strings.Builder).String" {
+		return false, "", false
+	}
+	b, isAl := sc.Call.Args[0].(*ssa.Alloc)
+	if !isAl {
+		return false, "builder is not a local", true
+	}
+	loops := core.Loops(f)
+	n := 0
+	for _, ref := range core.Referrers(b) {
+		c, isC := ref.(*ssa.Call)
+		if !isC {
+			if _, dbg := ref.(*ssa.DebugRef); dbg {
+				continue
+			}
+			return false, "builder escapes: " + ref.String(), true
+		}
+		switch core.CallName(c) {
+		case "(*strings.Builder).String", "(*strings.Builder).Grow", "(*strings.Builder).Len":
+			continue
+		case "(*strings.Builder).WriteString":
+			n++
+			l := core.InnermostLoop(loops, c.Block())
+			if l == nil || !loopOK(l) {
+				return false, "WriteString outside the element loop", true
+			}
+			for _, la := range l.Latch {
+				if !c.Block().Dominates(la) {
+					return false, "element is appended conditionally", true
+				}
+			}
+			if !elemOK(c.Call.Args[1]) {
+				return false, "appended string is not the current element", true
+			}
+		default:
+			return false, "builder written by " + core.CallName(c), true
+		}
+	}
+	if n != 1 {
+		return false, fmt.Sprintf("%d WriteString calls", n), true
+	}
+	return true, "", true
 }
 
 // checkDrawShape: R2.2 and R2.3 (also used by C03's R3.4).
